@@ -776,6 +776,176 @@ fn plus_confusion(seed: u64, shard: u64, n: u64) -> Tally {
     t
 }
 
+/// Pairs of byte strings that lossy or normalising text handling maps to one another: decoding invalid UTF-8 with a
+/// replacement character, reading Latin-1 as UTF-8 or the reverse, Unicode normalisation and case folding, dropping or
+/// replacing invisible characters, treating escape text in a header as an escape. The verifier works on bytes: the two
+/// members of a pair are different signed content.
+const TWINS: [(&[u8], &[u8], &str); 18] = [
+    (b"\xef\xbf\xbd", b"\xff", "U+FFFD / invalid byte ff"),
+    (b"\xef\xbf\xbd", b"\x80", "U+FFFD / stray continuation byte"),
+    (b"\xef\xbf\xbd", b"\xc3", "U+FFFD / truncated sequence"),
+    (b"\xef\xbf\xbd\xef\xbf\xbd", b"\xff\xfe", "two U+FFFD / two invalid bytes"),
+    (b"\xc3\xa9", b"\xe9", "UTF-8 / Latin-1 e-acute"),
+    (b"\xc3\xa9", b"e\xcc\x81", "NFC / NFD e-acute"),
+    (b"\xe2\x84\xaa", b"K", "Kelvin sign / K"),
+    (b"\xc3\x9f", b"ss", "sharp s / ss"),
+    (b"\xef\xac\x81", b"fi", "fi ligature / fi"),
+    (b"\xef\xbc\x91", b"1", "fullwidth digit / digit"),
+    (b"Q", b"q", "letter case"),
+    (b"\xc2\xa0", b" ", "no-break space / space"),
+    (b"\xe2\x80\x8b", b"", "zero-width space / nothing"),
+    (b"\t", b" ", "tab / space"),
+    (b"%41", b"A", "escape text / letter"),
+    (b"\xc0\xaf", b"%2F", "overlong slash / escape text"),
+    (b"\xc3\x83\xc2\xa9", b"\xc3\xa9", "double-encoded / single-encoded"),
+    (b"\xed\xa0\x80", b"\xef\xbf\xbd\xef\xbf\xbd\xef\xbf\xbd", "surrogate bytes / three U+FFFD"),
+];
+
+/// An accepted parent carrying one member of a twin pair in signed content (a signed header value, a query name or value, a
+/// path segment, a folded form value), and the child that carries the other member under the parent's signature.
+fn lossy_twins(seed: u64, shard: u64, n: u64) -> Tally {
+    let mut t = Tally::new();
+    for i in 0..n {
+        let mut r = Rng::keyed(seed, "C01", "twin", shard, i);
+        let cfg0 = gen_cfg(&mut r);
+        let o = GenOpts {
+            other_carrier_decoys: false,
+            ..Default::default()
+        };
+        let l = gen_logical(&mut r, &cfg0, &o);
+        let (a, b, label) = TWINS[r.usize_below(TWINS.len())];
+        let (a, b) = if r.coin() {
+            (a, b)
+        } else {
+            (b, a)
+        };
+        let (n_pre, n_post) = (r.usize_below(4), r.usize_below(4));
+        let pre = format!("p{}", r.string_from("abcxyz019", n_pre));
+        let post = r.string_from("abcxyz019", n_post);
+        let mk = |m: &[u8]| -> Vec<u8> {
+            let mut v = pre.clone().into_bytes();
+            v.extend_from_slice(m);
+            v.extend_from_slice(post.as_bytes());
+            v
+        };
+        let mut site = r.below(5);
+        if site == 4 && !(cfg0.fold && l.form_pairs.is_some()) {
+            site = 1;
+        }
+        let place = |l: &Logical, m: &[u8], r: &mut Rng| -> Logical {
+            let mut l2 = l.clone();
+            match site {
+                0 => {
+                    let idx: Vec<usize> = (0..l2.extra.len()).filter(|k| l2.signed.contains(&l2.extra[*k].0)).collect();
+                    if idx.is_empty() {
+                        l2.extra.push(("x-verif-twin".to_string(), vec![mk(m)]));
+                        l2.signed.push("x-verif-twin".to_string());
+                        l2.signed.sort();
+                    } else {
+                        let k = idx[r.usize_below(idx.len())];
+                        let j = r.usize_below(l2.extra[k].1.len());
+                        l2.extra[k].1[j] = mk(m);
+                    }
+                }
+                1 | 2 => {
+                    if l2.url_pairs.is_empty() {
+                        l2.url_pairs.push((b"k".to_vec(), b"v".to_vec()));
+                    }
+                    let k = r.usize_below(l2.url_pairs.len());
+                    if site == 1 {
+                        l2.url_pairs[k].1 = mk(m);
+                    } else {
+                        l2.url_pairs[k].0 = mk(m);
+                    }
+                }
+                3 => {
+                    if l2.segs.is_empty() {
+                        l2.segs.push(b"s".to_vec());
+                    }
+                    let k = r.usize_below(l2.segs.len());
+                    l2.segs[k] = mk(m);
+                }
+                _ => {
+                    let fp = l2.form_pairs.as_mut().unwrap();
+                    if fp.is_empty() {
+                        fp.push((b"k".to_vec(), b"v".to_vec()));
+                    }
+                    let k = r.usize_below(fp.len());
+                    fp[k].1 = mk(m);
+                }
+            }
+            l2
+        };
+        let site_name = ["header-value", "query-value", "query-name", "path-segment", "form-value"][site as usize];
+        // the same random choices for parent and child: only the member differs
+        let mut pr = Rng::keyed(seed, "C01", "twin-place", shard, i);
+        let lp = place(&l, a, &mut pr);
+        let mut cr = Rng::keyed(seed, "C01", "twin-place", shard, i);
+        let lc = place(&l, b, &mut cr);
+        let (pcase, pfacts) = {
+            let mut sr = Rng::keyed(seed, "C01", "twin-spell", shard, i);
+            let mut sp = Speller {
+                r: &mut sr,
+                level: (i % 2) as u8,
+            };
+            make_case(&lp, &cfg0, &mut sp, &Overrides::default(), gen_delta_ns(&mut r))
+        };
+        let prec = execute(&pcase);
+        t.eval();
+        if matches!(prec.outcome, Outcome::NotBuilt(_)) {
+            t.count("twin/parent_not_built_by_http");
+            continue;
+        }
+        if !prec.outcome.is_ok() {
+            t.count("twin/parent_not_accepted");
+            continue;
+        }
+        t.count(&format!("twin/parents/{}", site_name));
+        let ov = Overrides {
+            signature: Some(pfacts.sig.clone()),
+            ..Default::default()
+        };
+        let mut sr = Rng::keyed(seed, "C01", "twin-spell", shard, i);
+        let mut sp = Speller {
+            r: &mut sr,
+            level: (i % 2) as u8,
+        };
+        let (w, _) = crate::gen::render(&lc, &pcase.cfg, &mut sp, &ov);
+        let case = Case {
+            wire: w,
+            cfg: pcase.cfg.clone(),
+            script: pcase.script.clone(),
+        };
+        let rec = execute(&case);
+        t.eval();
+        if matches!(rec.outcome, Outcome::NotBuilt(_)) {
+            t.count("twin/child_not_built_by_http");
+            continue;
+        }
+        let shadow = judge(&case, &rec).and_then(|j| mon_shadow(&case, &rec, &j));
+        if let Some(mut v) = shadow {
+            v.signature = format!("{}|twin|{}|{}", v.signature, site_name, label);
+            v.detail = format!("twin '{}' in a {}: {}", label, site_name, v.detail);
+            t.violate(v);
+        } else if rec.outcome.is_ok() {
+            t.violate(violation(
+                "metamorphic",
+                &format!("twin|{}|{}", site_name, label),
+                format!("an accepted request carries {:?} in a {}; the same request with {:?} there instead ('{}'), under the same signature, is accepted too", crate::json::show_bytes(a), site_name, crate::json::show_bytes(b), label),
+                &case,
+                None,
+            ));
+        } else if observed_stage(&rec) == Some(Stage::Signature) {
+            t.count(&format!("twin/refused_at_comparison/{}", site_name));
+            t.count(&format!("twin/pair/{}", label));
+            t.nontrivial(case.hash());
+        } else {
+            t.count(&format!("twin/refused_earlier/{}", site_name));
+        }
+    }
+    t
+}
+
 pub fn run(tier: Tier) -> i32 {
     let mut ctx = Ctx::new("C01", tier);
     let pre = preflight();
@@ -786,9 +956,15 @@ pub fn run(tier: Tier) -> i32 {
     tally.merge(sp);
     let pc = ctx.par(4, |s| plus_confusion(seed, s, tier.n(10, 200)));
     tally.merge(pc);
+    let tw = ctx.par(16, |s| lossy_twins(seed, s, tier.n(600, 40_000)));
+    tally.merge(tw);
     if let Err(e) = &pre {
         tally.inconclusive.push(e.clone());
     }
+    for site in ["header-value", "query-value", "query-name", "path-segment", "form-value"] {
+        ctx.gate(&format!("twin pairs (lossy-decoding / normalisation collisions) in a {}: child refused at the signature comparison", site), tally.get(&format!("twin/refused_at_comparison/{}", site)), tier.n(if site == "form-value" { 60 } else { 600 }, if site == "form-value" { 4000 } else { 40_000 }));
+    }
+    ctx.gate("twin pairs seen refused at the comparison (of 18)", tally.counters.keys().filter(|k| k.starts_with("twin/pair/")).count() as u64, 18);
     for car in ["hdr", "qry"] {
         for mode in ["std", "s3", "fold"] {
             ctx.gate(&format!("accepted parents {} {}", car, mode), tally.get(&format!("parents/{}/{}", car, mode)), tier.n(100, 1000));
@@ -810,7 +986,7 @@ pub fn run(tier: Tier) -> i32 {
     ctx.exhaustive("signature positions 0-63 on each sig-position parent", true);
     let rep = Report {
         level: "exploration",
-        rule: "W-mutate: accepted W-sign parents (both carriers, all option sets, tokens) × one change each from a 40-entry catalogue (path/query/header/body/form pairs/method/timestamp incl. out-of-range aliases of the same instant/secret/signature incl. decorated and non-hex/SignedHeaders list/Authorization grammar/carrier/server scope/token/raw URI byte), the child carrying the parent's signature; plus every signature position × wrong digits. Oracles: shadow verifier (on every success the presented signature must equal the reference HMAC, under the key the provider returned in that execution, of the reference string-to-sign of the request as received) and a model-free metamorphic rule for changes that alter signed content by construction. Non-trivial = a child the reference model refuses at the signature stage and the library refused with the signature-mismatch class (i.e. the comparison itself was exercised); distinct by case hash.".into(),
+        rule: "W-mutate: accepted W-sign parents (both carriers, all option sets, tokens) × one change each from a 40-entry catalogue (path/query/header/body/form pairs/method/timestamp incl. out-of-range aliases of the same instant/secret/signature incl. decorated and non-hex/SignedHeaders list/Authorization grammar/carrier/server scope/token/raw URI byte), the child carrying the parent's signature; plus every signature position × wrong digits; plus 'twin' pairs — 18 pairs of byte strings that lossy UTF-8 decoding, Latin-1/UTF-8 confusion, Unicode normalisation, case folding or invisible-character handling map to one another — placed in a signed header value, a query name or value, a path segment or a folded form value: the parent carries one member and is accepted, the child carries the other under the parent's signature. Oracles: shadow verifier (on every success the presented signature must equal the reference HMAC, under the key the provider returned in that execution, of the reference string-to-sign of the request as received) and a model-free metamorphic rule for changes that alter signed content by construction. Non-trivial = a child the reference model refuses at the signature stage and the library refused with the signature-mismatch class (i.e. the comparison itself was exercised); distinct by case hash.".into(),
         assumptions: vec![
             "HMAC-SHA256 unforgeability is assumed (cryptographic half of the statement)".into(),
             "reference model calibrated on the AWS vectors".into(),
